@@ -165,8 +165,14 @@ func TestC25_Known_ForeignShard(t *testing.T) {
 func TestC25_Known_ConsistentCorruption(t *testing.T) {
 	knownTest(t, "C25", slugTwin, "instead of an error",
 		Case{Mode: "read", D: 1, P: 1, Size: 1, Damage: dmgList(2, nil), Twin: &Twin{Pos: 0, Mask: 1}},
-		Case{Mode: "read", D: 3, P: 2, Size: 100, ContentKind: 2, Seed: 7, Damage: dmgList(5, nil), Twin: &Twin{Pos: 50, Mask: 0x80}},
-		// p drives gone and one bit rotted on a third: the rotten shard's md5 no longer matches, yet no error
+		Case{Mode: "read", D: 3, P: 2, Size: 100, ContentKind: 2, Seed: 7, Damage: dmgList(5, nil), Twin: &Twin{Pos: 50, Mask: 0x80}})
+}
+
+// p drives gone and one bit rotted on another: the rotten shard's md5 no longer matches, yet
+// the read returns (wrong) bytes and no error.
+func TestC25_Known_DegradedReadUncheckedSurvivor(t *testing.T) {
+	knownTest(t, "C25", slugDegraded, "instead of an error",
+		Case{Mode: "read", D: 1, P: 1, Size: 1, Damage: dmgList(2, map[int]Dmg{0: {Kind: Missing}, 1: {Kind: FlipPayload, Off: 0, Mask: 1}})},
 		Case{Mode: "read", D: 2, P: 2, Size: 100, ContentKind: 2, Seed: 7,
 			Damage: dmgList(4, map[int]Dmg{2: {Kind: Missing}, 3: {Kind: Missing}, 0: {Kind: FlipPayload, Off: 3, Mask: 0x10}})})
 }
